@@ -576,6 +576,15 @@ func refUntar(es []UEntry, umask int) (map[string]refNode, bool, bool) {
 		}
 		switch e.Typ {
 		case tar.TypeXGlobalHeader, tar.TypeXHeader:
+			// nothing is created for a header record, but Unpack validates its name like any other: a
+			// name that passes through something that is not a directory is refused (ENOTDIR in the
+			// per-component walk).  Such an archive is not in the class the reference judges (thorough
+			// tier, seed 41: record named d/new/pax_global_header after a regular file d).
+			for d := filepath.Dir(p); d != "." && d != "/"; d = filepath.Dir(d) {
+				if n, ok := tree[d]; ok && n.kind != "d" {
+					return nil, false, false
+				}
+			}
 			continue
 		case tar.TypeReg, tar.TypeRegA, tar.TypeDir, tar.TypeSymlink:
 		default:
